@@ -43,11 +43,20 @@ func VH_C15_hooks() {
 	// a stored object, to check that a rejected insert changes nothing
 	base := &vHooked{A: 1, S: "base"}
 	vAssert("C15.base", db.InsertOrUpdate(base) == nil)
+	// the hooks gate insertions on a handle that loaded the schema from disk too
+	if vChoice("reopen", 2) == 1 {
+		vAssert("C15.close", db.Close() == nil)
+		db = Open(root)
+	}
+	upd := vChoice("update", 2) == 1 // the object under test replaces the stored one
 
 	a := vInt64("A")
 	b0 := vInt64("B0") // whatever the caller left in the derived field
 	s := vString("S", vBound("L", 2))
 	o := &vHooked{A: a, B: b0, S: s}
+	if upd {
+		o.Initialize(base.UUID())
+	}
 	var err error
 	n := 1
 	entry := vChoice("entry", 3)
@@ -74,14 +83,21 @@ func VH_C15_hooks() {
 		vAssert("C15.rejected.invisible.count", cnt == 1)
 		sr := db.Search(&vHooked{}, "A", "=", a)
 		vAssert("C15.rejected.invisible.search", sr.Err() == nil && sr.Len() == 0 || a == 1)
-		if o.UUID() != "" {
+		if upd {
+			got, gerr := db.GetByUUID(&vHooked{}, base.UUID())
+			vAssert("C15.rejected.update_keeps_old", gerr == nil && got.(*vHooked).A == 1 && got.(*vHooked).S == "base")
+		} else if o.UUID() != "" {
 			_, gerr := db.GetByUUID(&vHooked{}, o.UUID())
 			vAssert("C15.rejected.invisible.get", gerr != nil)
 		}
 		return
 	}
 	vAssert("C15.accepted.n", n == 1)
-	vAssert("C15.accepted.count", cnt == 2)
+	if upd {
+		vAssert("C15.accepted.count", cnt == 1)
+	} else {
+		vAssert("C15.accepted.count", cnt == 2)
+	}
 	got, gerr := db.GetByUUID(&vHooked{}, o.UUID())
 	vAssert("C15.accepted.get", gerr == nil)
 	if gerr == nil {
